@@ -148,6 +148,7 @@ func (o op) String() string {
 var poolStr = []string{"1", "2:3", "1,3,5", "5:*", "*", "4294967295", "4294967294:4294967295", "1:4294967294", "2,4294967295", "3:5,*", "1:2,4:5", "4294967294"}
 var poolRef []*refSet
 var poolSets []imapnum.Set
+var poolPristine []imapnum.Set
 
 func initPool() {
 	for _, s := range poolStr {
@@ -177,6 +178,7 @@ func initPool() {
 		}
 		poolRef = append(poolRef, r)
 		poolSets = append(poolSets, set)
+		poolPristine = append(poolPristine, append(imapnum.Set(nil), set...))
 	}
 }
 
@@ -288,6 +290,13 @@ func canonicalErr(s imapnum.Set) string {
 }
 
 func (c *checker) check(t *real3, r *refSet, h []op, nums bool) {
+	// sets passed as arguments to AddSet must not be modified through the receiver (no shared storage)
+	for _, o := range h {
+		if o.kind == 2 && !reflect.DeepEqual(poolSets[o.set], poolPristine[o.set]) {
+			c.fail("addset-argument-modified", h, fmt.Sprintf("argument set %q of an earlier AddSet now reads %q", poolStr[o.set], poolSets[o.set].String()))
+			poolSets[o.set] = append(imapnum.Set(nil), poolPristine[o.set]...)
+		}
+	}
 	// the three flavours must have identical representations
 	if !reflect.DeepEqual(toSeq(t.n), append(imap.SeqSet(nil), t.s...)) && !(len(t.n) == 0 && len(t.s) == 0) {
 		c.fail("seqset-differs-from-numset", h, fmt.Sprintf("imapnum=%v SeqSet=%v", t.n, t.s))
